@@ -9,32 +9,7 @@ Import ListNotations.
 Definition is_pdl (x : instr) : bool := match x with Ipush _ | Idup | Iload _ => true | _ => false end.
 Definition is_popconst (x : instr) : bool := match x with Ipop | Iconst _ => true | _ => false end.
 
-Fixpoint peepR (tg : list nat) (call : list instr) (i : nat) (l : list instr) : list instr :=
-  match l with
-  | [] => []
-  | x :: r =>
-      let r' := peepR tg call (S i) r in
-      let look j := if S i <=? j then nth_error r' (j - S i)
-                    else if j =? i then Some x else nth_error call j in
-      match x with
-      | Ipush _ | Idup | Iload _ =>
-          if is_target tg (S i) then x :: r'
-          else match r' with
-               | Ipop :: r'' => Inop :: Inop :: r''
-               | Iconst k :: r'' => Inop :: Ipush k :: r''
-               | _ => x :: r'
-               end
-      | Ijump j =>
-          if j =? S i then Inop :: r'
-          else match look j with Some (Ijump j') => Ijump j' :: r' | _ => x :: r' end
-      | Ijumpifnot j =>
-          if j =? S i then Inop :: r'
-          else match look j with Some (Ijump j') => Ijumpifnot j' :: r' | _ => x :: r' end
-      | _ => x :: r'
-      end
-  end.
-
-Definition peephole_fold (c : list instr) : list instr := peepR (jump_targets c) c 0 c.
+Definition peephole_fold := peephole.
 
 Lemma peepR_length : forall tg call l i, length (peepR tg call i l) = length l.
 Proof.
@@ -484,3 +459,55 @@ Proof.
 Qed.
 
 End Sim.
+
+(* ---- the side conditions hold for the code emitted by comp ---- *)
+Definition jin_ok (pc : nat) (l : list instr) : Prop :=
+  forall k j, nth_error l k = Some (Ijumpifnot j) -> pc + k + 2 <= j.
+
+Lemma jin_nil : forall pc, jin_ok pc [].
+Proof. intros pc [|k] j H; discriminate. Qed.
+Lemma jin_cons : forall pc x r,
+  match x with Ijumpifnot j => pc + 2 <= j | _ => True end -> jin_ok (S pc) r -> jin_ok pc (x :: r).
+Proof.
+  intros pc x r Hx Hr [|k] j H; simpl in H.
+  - inversion H; subst. lia.
+  - specialize (Hr k j H). lia.
+Qed.
+Lemma jin_app : forall pc a b, jin_ok pc a -> jin_ok (pc + length a) b -> jin_ok pc (a ++ b).
+Proof.
+  intros pc a b Ha Hb k j H. destruct (Nat.lt_ge_cases k (length a)).
+  - rewrite nth_error_app1 in H by auto. apply Ha; auto.
+  - rewrite nth_error_app2 in H by auto. specialize (Hb _ _ H). lia.
+Qed.
+Lemma jin_eq : forall pc pc' l, pc = pc' -> jin_ok pc l -> jin_ok pc' l.
+Proof. intros; subst; auto. Qed.
+
+From Verif Require Import c01vm.Lemmas.
+
+Ltac jin_sub := eapply jin_eq; [|solve [eauto]]; simpl; repeat (rewrite app_length; simpl); lia.
+Ltac jin :=
+  repeat first
+    [ apply jin_nil
+    | apply jin_cons; [simpl; repeat (rewrite app_length; simpl); first [exact I|lia]|]
+    | jin_sub
+    | apply jin_app ].
+
+Lemma comp_sarg_jin : forall v a l pc, comp_sarg v a = Some l -> jin_ok pc l.
+Proof.
+  intros v a l pc H. destruct a; simpl in H; try (destruct (simple_const c); [|discriminate]); inversion H; subst; jin.
+Qed.
+
+Lemma comp_jin : forall q ce pc nv cq nv', comp q ce pc nv = Some (cq, nv') -> jin_ok pc cq.
+Proof.
+  induction q as [ | c | a b IHa IHb | a b IHa IHb | | t IHt | t k IHt | c a b IHc IHa IHb | a b IHa IHb
+                 | a h IHa IHh | q IHq | s x i u IHs IHi IHu | s x i u e IHs IHi IHu IHe | l b IHb | l
+                 | s x b IHs IHb | x | f | o a b ] using query_ind';
+    intros ce pc nv cq nv' Hc; simpl in Hc; dcomp; try (inversion Hc; subst; clear Hc; jin; fail).
+  - (* if *) destruct (is_const1 l0), (is_const1 l1); inversion Hc; subst; clear Hc; destruct l; simpl; jin.
+  - (* try *) destruct h as [h|]; simpl in *; dcomp; inversion Hc; subst; clear Hc; jin.
+  - (* array *) destruct (array_fold q); inversion Hc; subst; clear Hc; jin.
+  - (* foreach *) destruct e as [e|]; simpl in *; dcomp; inversion Hc; subst; clear Hc; jin.
+  - (* bind *) destruct l; inversion Hc; subst; clear Hc; simpl; jin.
+  - (* binop *) destruct (comp_sarg (V nv) b) eqn:Eb; [|discriminate]. destruct (comp_sarg (V nv) a) eqn:Ea; [|discriminate].
+    inversion Hc; subst; clear Hc. jin; eapply comp_sarg_jin; eauto.
+Qed.
